@@ -91,6 +91,15 @@ pub struct SmartsRecord {
     max: Option<usize>,
 }
 
+const ID_OPTIONS: [(&str, IdentifierOption); 6] = [
+    ("cas", IdentifierOption::Cas),
+    ("name", IdentifierOption::Name),
+    ("iupac_name", IdentifierOption::IupacName),
+    ("smiles", IdentifierOption::Smiles),
+    ("inchi", IdentifierOption::Inchi),
+    ("formula", IdentifierOption::Formula),
+];
+
 fn path(rel: &str) -> String {
     format!("{}/{}", configs::params(), rel)
 }
@@ -172,43 +181,49 @@ fn dump_pure<M: DeserializeOwned + Serialize + Clone + Key>(rel: &str) -> Result
         out.push(json!({"ids": ident(&r.identifier), "mw": bits(r.molarweight), "key": key_json(r.model_record.key()),
                         "nums": nums, "strs": strs}));
     }
-    // real loader: query every distinct name once, see which file record comes back
-    let mut names: Vec<String> = Vec::new();
-    for r in &recs {
-        if let Some(n) = &r.identifier.name {
+    // real loader, for every IdentifierOption: query every distinct identifier of that kind once and see which
+    // file record comes back
+    let vals: Vec<Value> = recs.iter().map(|r| serde_json::to_value(r).unwrap_or(Value::Null)).collect();
+    let mut lookup = serde_json::Map::new();
+    for (kname, kopt) in ID_OPTIONS {
+        let keys: Vec<Option<String>> = recs.iter().map(|r| r.identifier.as_string(kopt)).collect();
+        let mut names: Vec<String> = Vec::new();
+        for n in keys.iter().flatten() {
             if !names.contains(n) {
                 names.push(n.clone());
             }
         }
-    }
-    let q: Vec<&str> = names.iter().map(|s| s.as_str()).collect();
-    let vals: Vec<Value> = recs.iter().map(|r| serde_json::to_value(r).unwrap_or(Value::Null)).collect();
-    let mut lookup = json!({"queried": q.len()});
-    match PureRecord::<M>::from_json(&q, path(rel), IdentifierOption::Name) {
-        Ok(found) => {
-            let fvals: Vec<Value> = found.iter().map(|r| serde_json::to_value(r).unwrap_or(Value::Null)).collect();
-            let mut unreachable = Vec::new();
-            for (i, r) in recs.iter().enumerate() {
-                match &r.identifier.name {
-                    None => unreachable.push(json!({"index": i, "name": Value::Null, "why": "record has no name"})),
-                    Some(n) => {
+        let q: Vec<&str> = names.iter().map(|s| s.as_str()).collect();
+        let mut lk = json!({"queried": q.len(), "without_identifier": keys.iter().filter(|k| k.is_none()).count()});
+        if q.is_empty() {
+            lookup.insert(kname.to_string(), lk);
+            continue;
+        }
+        match PureRecord::<M>::from_json(&q, path(rel), kopt) {
+            Ok(found) => {
+                let fvals: Vec<Value> = found.iter().map(|r| serde_json::to_value(r).unwrap_or(Value::Null)).collect();
+                let mut unreachable = Vec::new();
+                for (i, key) in keys.iter().enumerate() {
+                    if let Some(n) = key {
                         let k = names.iter().position(|x| x == n).unwrap();
                         if fvals[k] != vals[i] {
                             let j = vals.iter().position(|v| *v == fvals[k]);
-                            unreachable.push(json!({"index": i, "name": n, "returned_index": j,
-                                "why": "from_json(name) returns a different record of the same file"}));
+                            unreachable.push(json!({"index": i, "identifier": n, "name": recs[i].identifier.name, "returned_index": j,
+                                "why": "from_json(identifier) returns a different record of the same file"}));
                         } else if vals.iter().position(|v| *v == vals[i]) != Some(i) {
-                            unreachable.push(json!({"index": i, "name": n, "returned_index": vals.iter().position(|v| *v == vals[i]),
-                                "why": "identical copy of an earlier record"}));
+                            unreachable.push(json!({"index": i, "identifier": n, "name": recs[i].identifier.name,
+                                "returned_index": vals.iter().position(|v| *v == vals[i]), "why": "identical copy of an earlier record"}));
                         }
                     }
                 }
+                lk["returned"] = json!(found.len());
+                lk["unreachable"] = json!(unreachable);
             }
-            lookup["returned"] = json!(found.len());
-            lookup["unreachable"] = json!(unreachable);
+            Err(e) => lk["error"] = json!(e.to_string()),
         }
-        Err(e) => lookup["error"] = json!(e.to_string()),
+        lookup.insert(kname.to_string(), lk);
     }
+    let lookup = Value::Object(lookup);
     Ok(json!({"records": out, "lookup": lookup}))
 }
 
@@ -276,10 +291,12 @@ fn dump(rel: &str, kind: &str) -> Result<Value, String> {
 // ---------------------------------------------------------------------------------------------
 // real binary look-up: every record of a binary file must be found again through Parameter::from_multiple_json
 
-fn names_of<M: DeserializeOwned>(rel: &str) -> Vec<String> {
-    read::<Vec<PureRecord<M>>>(rel).map(|v| v.into_iter().filter_map(|r| r.identifier.name).collect()).unwrap_or_default()
+fn idents_of<M: DeserializeOwned>(rel: &str) -> Vec<Identifier> {
+    read::<Vec<PureRecord<M>>>(rel).map(|v| v.into_iter().map(|r| r.identifier).collect()).unwrap_or_default()
 }
 
+/// every record of a binary file, for every IdentifierOption both of its identifiers state, is looked up again through
+/// Parameter::from_multiple_json with that option and must come back with its own model record
 fn binary_lookup<P: Parameter>(binfile: &str, collections: &[&[&str]]) -> Value
 where
     P::Binary: Serialize,
@@ -290,47 +307,58 @@ where
     };
     let mut out = Vec::new();
     for (ci, coll) in collections.iter().enumerate() {
-        let names: Vec<(String, Vec<String>)> = coll.iter().map(|f| (f.to_string(), names_of::<P::Pure>(f))).collect();
-        for (i, r) in recs.iter().enumerate() {
-            let n1 = r.id1.name.clone().unwrap_or_default();
-            let n2 = r.id2.name.clone().unwrap_or_default();
-            let f1 = names.iter().find(|(_, ns)| ns.contains(&n1)).map(|x| x.0.clone());
-            let f2 = names.iter().find(|(_, ns)| ns.contains(&n2)).map(|x| x.0.clone());
-            let expected = serde_json::to_value(&r.model_record).unwrap_or(Value::Null);
-            let mut e = json!({"collection": ci, "index": i, "id1": n1, "id2": n2, "file1": f1, "file2": f2});
-            if let (Some(f1), Some(f2)) = (f1, f2) {
-                let input: Vec<(Vec<&str>, String)> = if f1 == f2 {
-                    vec![(vec![n1.as_str(), n2.as_str()], path(&f1))]
-                } else {
-                    vec![(vec![n1.as_str()], path(&f1)), (vec![n2.as_str()], path(&f2))]
+        let idents: Vec<(String, Vec<Identifier>)> = coll.iter().map(|f| (f.to_string(), idents_of::<P::Pure>(f))).collect();
+        for (kname, kopt) in ID_OPTIONS {
+            for (i, r) in recs.iter().enumerate() {
+                // the substances the record names: the pure records carrying the names of id1 / id2; they are then
+                // queried by THEIR identifier of this kind (what a user of IdentifierOption::<kind> would type)
+                let by_name = |id: &Identifier| {
+                    idents.iter().find_map(|(f, ids)| ids.iter().find(|p| p.name.is_some() && p.name == id.name).map(|p| (f.clone(), p.clone())))
                 };
-                let res = catch_unwind(AssertUnwindSafe(|| P::from_multiple_json(&input, Some(path(binfile)), IdentifierOption::Name)));
+                let (p1, p2) = (by_name(&r.id1), by_name(&r.id2));
+                if r.id1.as_string(kopt).is_none() || r.id2.as_string(kopt).is_none() {
+                    continue;
+                }
+                let q1 = p1.as_ref().and_then(|(_, p)| p.as_string(kopt));
+                let q2 = p2.as_ref().and_then(|(_, p)| p.as_string(kopt));
+                let (n1, n2, f1, f2) = match (q1, q2) {
+                    (Some(a), Some(b)) => (a, b, p1.map(|x| x.0), p2.map(|x| x.0)),
+                    _ => (r.id1.as_string(kopt).unwrap(), r.id2.as_string(kopt).unwrap(), None, None),
+                };
+                let expected = serde_json::to_value(&r.model_record).unwrap_or(Value::Null);
+                let mut e = json!({"collection": ci, "kind": kname, "index": i, "query1": n1, "query2": n2, "file1": f1, "file2": f2,
+                                   "id1": r.id1.as_string(kopt), "id2": r.id2.as_string(kopt), "name1": r.id1.name, "name2": r.id2.name});
+                let input: Vec<(Vec<&str>, String)> = match (&f1, &f2) {
+                    (Some(f1), Some(f2)) if f1 == f2 => vec![(vec![n1.as_str(), n2.as_str()], path(f1))],
+                    (Some(f1), Some(f2)) => vec![(vec![n1.as_str()], path(f1)), (vec![n2.as_str()], path(f2))],
+                    // dangling reference: show what the real loader says when asked for this pair
+                    _ => vec![(vec![n1.as_str(), n2.as_str()], path(coll[0]))],
+                };
+                let dangling = f1.is_none() || f2.is_none();
+                let res = catch_unwind(AssertUnwindSafe(|| P::from_multiple_json(&input, Some(path(binfile)), kopt)));
                 match res {
                     Ok(Ok(p)) => {
                         let got = p.records().1.map(|b| serde_json::to_value(&b[(0, 1)]).unwrap_or(Value::Null)).unwrap_or(Value::Null);
-                        e["resolved"] = json!(got == expected);
+                        e["resolved"] = json!(got == expected && !dangling);
                         if got != expected {
                             e["got"] = got;
                             e["expected"] = expected;
                         }
                     }
-                    Ok(Err(err)) => e["error"] = json!(err.to_string()),
-                    Err(_) => e["error"] = json!("panic"),
+                    Ok(Err(err)) => {
+                        e["resolved"] = json!(false);
+                        e["error"] = json!(err.to_string())
+                    }
+                    Err(_) => {
+                        e["resolved"] = json!(false);
+                        e["error"] = json!("panic")
+                    }
                 }
-            } else {
-                // dangling reference: show what the real loader says when asked for this pair
-                let f0 = path(coll[0]);
-                let input: Vec<(Vec<&str>, String)> = vec![(vec![n1.as_str(), n2.as_str()], f0)];
-                let res = catch_unwind(AssertUnwindSafe(|| P::from_multiple_json(&input, Some(path(binfile)), IdentifierOption::Name)));
-                let msg = match res {
-                    Ok(Ok(_)) => "loader returned Ok".to_string(),
-                    Ok(Err(err)) => err.to_string(),
-                    Err(_) => "panic".to_string(),
-                };
-                e["resolved"] = json!(false);
-                e["error"] = json!(format!("dangling: substance not in the accompanying collection; real loader: {msg}"));
+                if dangling {
+                    e["dangling"] = json!(true);
+                }
+                out.push(e);
             }
-            out.push(e);
         }
     }
     json!({"lookups": out})
